@@ -101,10 +101,6 @@ def read_graph(graph_raw) -> nx.DiGraph:
     # Store (possibly empty) list of subpaths (each a list of edge tuples)
     G.graph["constraints"] = constraint_subpaths
 
-    if n == 0:
-        utils.logger.info(f"Graph {graph_id} has 0 vertices.")
-        return G
-
     # Parse edges: skip blanks and comment/header lines defensively
     for line in graph_raw[idx:]:
         if not line.strip() or line.lstrip().startswith('#'):
@@ -130,6 +126,11 @@ def read_graph(graph_raw) -> nx.DiGraph:
 
     G.graph["n"] = G.number_of_nodes()
     G.graph["m"] = G.number_of_edges()
+    if G.number_of_edges() == 0:
+        # A block without edges (vertex count 0): there is no source-sink graph to compute a width on
+        utils.logger.info(f"Graph {graph_id} has no edges.")
+        G.graph["w"] = 0
+        return G
     # Lazy import here to avoid circular import at module load time
     from flowpaths import stdigraph as _stdigraph  # type: ignore
     G.graph["w"] = _stdigraph.stDiGraph(G).get_width()
